@@ -34,8 +34,8 @@ type Layout struct {
 	EOL   string // "\n", "\r\n", "\r"
 	Unit  string // indentation unit
 	// probabilities (x/12) of the optional features
-	PExplicit, PTrivia, PQuote, PBlockAnnot, PTrail, PEolComment int
-	NoFinalEOL                                                   bool
+	PExplicit, PTrivia, PQuote, PBlockAnnot, PTrail, PEolComment, PInline int
+	NoFinalEOL                                                            bool
 }
 
 func PlainLayout() *Layout { return &Layout{Plain: true, EOL: "\n", Unit: "  "} }
@@ -48,6 +48,7 @@ func RandomLayout(r Rnd) *Layout {
 	l.PTrivia = pick(r, []int{0, 1, 3})
 	l.PQuote = pick(r, []int{0, 3, 12})
 	l.PBlockAnnot = pick(r, []int{0, 4, 12})
+	l.PInline = pick(r, []int{0, 0, 0, 8})
 	l.PTrail = pick(r, []int{0, 0, 3})
 	l.PEolComment = pick(r, []int{0, 0, 2})
 	l.NoFinalEOL = chance(r, 1, 5)
@@ -138,6 +139,24 @@ func genCommentText(r Rnd) string {
 	return strings.TrimLeft(t, "#")
 }
 
+// inlineBlock sometimes writes a "### ... ###" block comment (on one line or over several) where a parameter is about to
+// be written: block comments may sit between the tokens of a directive line.
+func (rr *renderer) inlineBlock(f *fileBuf, id int, where string) {
+	l := rr.l
+	if l.Plain || l.PInline == 0 || !l.ch(id, "inline-"+where, l.PInline) {
+		return
+	}
+	x := &lrnd{l: l, id: id, what: "inlinetext-" + where}
+	if chance(x, 1, 3) {
+		f.sb.WriteString("###" + l.EOL + "  " + genWords(x, 2) + l.EOL + "### ")
+		f.line += 2
+		rr.out.Features["inline-block-comment-multiline"]++
+	} else {
+		f.sb.WriteString("### " + genWords(x, 2) + " ### ")
+	}
+	rr.out.Features["inline-block-comment"]++
+}
+
 func quoteParam(s string) string {
 	return `"` + strings.ReplaceAll(strings.ReplaceAll(s, `\`, `\\`), `"`, `\"`) + `"`
 }
@@ -201,7 +220,7 @@ func (rr *renderer) renderList(f *fileBuf, dirs []*Dir, depth int) {
 		if d.Kw == "INCLUDE" {
 			// an INCLUDE: the included directives are written to their own file with an arbitrary base depth
 			f.afterText = false
-		f.afterBody = false
+			f.afterBody = false
 			f.afterBody = false
 			f.sb.WriteString(ind)
 			kb := f.off()
@@ -212,12 +231,13 @@ func (rr *renderer) renderList(f *fileBuf, dirs []*Dir, depth int) {
 			if l.ch(d.ID, "incquote", l.PQuote) {
 				txt = quoteParam(name)
 			}
+			line := f.line // the INCLUDE is where its keyword is, whatever comes between the keyword and the file name
 			f.sb.WriteString(" ")
+			rr.inlineBlock(f, d.ID, "inc")
 			pb := f.off()
 			f.sb.WriteString(txt)
 			f.spans = append(f.spans, Span{'P', pb, f.off() - 1})
-			rr.out.Pos[d.ID] = Pos{File: f.name, Line: f.line, Index: kb, Chain: f.chain}
-			line := f.line
+			rr.out.Pos[d.ID] = Pos{File: f.name, Line: line, Index: kb, Chain: f.chain}
 			rr.eol(f)
 			if rr.files[d.IncludeFile] != nil {
 				// the same piece included again: the file is written once
@@ -256,6 +276,7 @@ func (rr *renderer) renderList(f *fileBuf, dirs []*Dir, depth int) {
 				sep = pick(&lrnd{l: l, id: d.ID, what: fmt.Sprintf("septext%d", pi)}, []string{"  ", "\t", " \t "})
 			}
 			f.sb.WriteString(sep)
+			rr.inlineBlock(f, d.ID, fmt.Sprintf("p%d", pi))
 			pb := f.off()
 			f.sb.WriteString(txt)
 			f.spans = append(f.spans, Span{'P', pb, f.off() - 1})
